@@ -1,15 +1,38 @@
 /-
 Specification of an acknowledgement queue, written from the text of property
-C13 and MQTT 3.1.1 §4.3 — *not* from the code: a plain FIFO list of in-flight
-requests keyed by packet identifier, plus one slot for the (identifier-less)
-ping request.
-
-The only inputs taken from the code base are the two protocol tables
-(`ackIdTypes`: which packet types are acknowledgements carrying an identifier;
-`terminal`: which of them end an exchange), passed as parameters so that the
-theorems state what they need of them.
+C13 and MQTT 3.1.1 §4.3/§4.4 — *not* from the code: a plain FIFO list of
+in-flight requests keyed by packet identifier, plus one slot for the
+(identifier-less) ping request.  Nothing here depends on `Generated.Facts`:
+packet type numbers and the set of exchange-ending acknowledgements are the
+protocol's.
 -/
+import Mqtt.Iface.AckQ
+
 namespace Mqtt.Spec.Fifo
+open Mqtt.Iface.AckQ
+
+/-! MQTT 3.1.1 control packet types (§2.2.1). -/
+def PUBLISH : Nat := 3
+def PUBACK : Nat := 4
+def PUBREC : Nat := 5
+def PUBREL : Nat := 6
+def PUBCOMP : Nat := 7
+def SUBSCRIBE : Nat := 8
+def SUBACK : Nat := 9
+def UNSUBSCRIBE : Nat := 10
+def UNSUBACK : Nat := 11
+def PINGREQ : Nat := 12
+def PINGRESP : Nat := 13
+
+/-- acknowledgements that carry a packet identifier -/
+def isIdAck (t : Nat) : Bool :=
+  t == PUBACK || t == PUBREC || t == PUBREL || t == PUBCOMP || t == SUBACK || t == UNSUBACK
+
+/-- acknowledgements that end an exchange (§4.3: PUBACK ends QoS 1; PUBREL ends
+the receiver's wait, PUBCOMP the sender's, for QoS 2; SUBACK, UNSUBACK).
+PUBREC does not: it only ends the first half of a QoS 2 exchange. -/
+def terminal (t : Nat) : Bool :=
+  t == PUBACK || t == PUBREL || t == PUBCOMP || t == SUBACK || t == UNSUBACK
 
 /-- An in-flight request. -/
 structure Entry where
@@ -39,8 +62,47 @@ def ackId (s : S) (t id : Nat) (bytes : List UInt8) : S :=
 
 /-- collect: the longest prefix of requests that reached a terminal
 acknowledgement is handed back, in order. -/
-def collect (terminal : Nat → Bool) (s : S) : S × List Entry :=
+def collect (s : S) : S × List Entry :=
   ({ s with q := s.q.dropWhile (fun e => terminal e.state) },
    s.q.takeWhile (fun e => terminal e.state))
+
+inductive SOut where
+  | ok (b : Bool)
+  | released (l : List Entry)
+deriving DecidableEq, Repr
+
+def regOpt (s : S) (mtype id : Nat) (enc : Option (List UInt8)) (tag : Nat) : S :=
+  match enc with
+  | some b => register s ⟨mtype, 0, id, b, [], tag⟩
+  | none => s            -- a request that cannot be serialised is not registered
+
+/-- The FIFO semantics of each queue operation. -/
+def step (s : S) : Op → S × SOut
+  | .wait (.publish qos id enc) tag =>
+      if qos == 0 then (s, .ok false) else (regOpt s PUBLISH id enc tag, .ok true)
+  | .wait (.subscribe id enc) tag => (regOpt s SUBSCRIBE id enc tag, .ok true)
+  | .wait (.unsubscribe id enc) tag => (regOpt s UNSUBSCRIBE id enc tag, .ok true)
+  | .wait (.pingreq enc) tag => ({ s with ping := some ⟨PINGREQ, 0, 0, enc, [], tag⟩ }, .ok true)
+  | .wait .other _ => (s, .ok false)
+  | .ack t id bytes =>
+      if isIdAck t then (ackId s t id bytes, .ok true)
+      else if t == PINGRESP then
+        ({ s with ping := s.ping.map (fun e => { e with state := PINGRESP, ack := bytes }) }, .ok true)
+      else (s, .ok false)
+  | .acked =>
+      let pingDone := match s.ping with
+        | some e => e.state == PINGRESP
+        | none => false
+      let s1 : S := if pingDone then { s with ping := none } else s
+      let pl := if pingDone then s.ping.toList else []
+      let (s2, l) := collect s1
+      (s2, .released (pl ++ l))
+
+def run (s : S) : List Op → S × List SOut
+  | [] => (s, [])
+  | op :: ops =>
+    let (s1, o) := step s op
+    let (s2, os) := run s1 ops
+    (s2, o :: os)
 
 end Mqtt.Spec.Fifo
